@@ -1,7 +1,7 @@
 /-
   Driver.C02 — JSON front end of the protobuf codec model (CRModel.CRProto).
   ops: encode {x, T} → {"ok": tree} | {"err": cls};  decode {m} → {"ok": snapshot} | {"err": cls};
-       roundtrip {x} → decodePb (encScn x);  norm {x} → normPb x;  tables {} → the tables hard-wired in the model.
+       roundtrip {x} → decodePb (encScn x);  norm {x} → normPb x;  spec_classes {x};  canon {x} → wf/typed/canon/inits_ok;  tables {} → the tables hard-wired in the model.
   Snapshots use the JSON layout of Lean's derived ToJson/FromJson (structures: objects, inductives: {"ctor": {args}}).
   Message trees:  null | {"u":n} | {"i":n} | {"d":"hex"} | true/false | {"s":"…"} | {"e":[type,name]} | {"m":{field:tree}} |
   [tree…] | {"err":cls}.
@@ -73,6 +73,19 @@ def handle (op : String) (a : Json) : P Json := do
   | "decode" => pure <| resJ toJson (decodePb (← pbOfJson (← field a "m")))
   | "roundtrip" => pure <| resJ toJson (decodePb (encScn (← scn a)))
   | "norm" => pure <| toJson (normPb (← scn a))
+  | "spec_classes" => do
+    -- the class each non-initial state denotes (`St.specClass`, computed from the snapshot alone), in traversal order
+    let x ← scn a
+    let traj := x.dynamic.flatMap fun o => match o.pred with
+      | some (.traj _ states _) => states.map St.specClass
+      | _ => []
+    let goals := x.pps.flatMap fun p => p.goals.map fun g => g.state.specClass
+    pure <| Json.mkObj [("traj", strs traj), ("goals", strs goals)]
+  | "canon" => do
+    let x ← scn a
+    let initsOk := x.static.all (fun o => o.init.initOk) && x.dynamic.all (fun o => o.init.initOk) && x.pps.all (fun p => p.init.initOk)
+    pure <| Json.mkObj [("wf", Json.bool x.wf), ("typed", Json.bool x.typed), ("canon", Json.bool x.canon),
+      ("inits_ok", Json.bool initsOk)]
   | "tables" =>
     pure <| Json.mkObj [("state_fields", strs stateFields),
       ("classes", Json.arr (stateClasses.map fun (c, as) => Json.arr #[Json.str c, strs as]).toArray),
